@@ -11,3 +11,7 @@ reg("C01", "exploration",
     "Round-trip search over every corpus font in every container flavour, Hypothesis-generated table transplants with unknown-tag tables, lazy modes and generated touched-table sets: G1 = save(load(G0)), G2 = save(load(G1)); oracle = untouched/undecodable tables byte-identical, decoded tables content-equal after masking documented recomputed fields, G2 == G1 byte for byte, save never raises.",
     "Content equality of recompiled tables is judged on the library's own TTX fragment of the original file vs the re-saved file (masks listed in evidence assumptions); single-table TTX dumps of feaLib/otlLib are not mounted on skeleton fonts in this round.",
     "round-trip / fixed-point metamorphic testing over corpus x generated transplants and load configurations", "DESIGN.md section 2 C01")
+reg("C03", "exploration",
+    "Round-trip search over every corpus font x generated dump-option tuples (split tables/glyphs, instruction disassembly, bitmap formats, newline conventions, tables=/skipTables= merges, a sample through the ttx CLI): save(import(dump)) must give byte-identical tables to save(original object model), free-text tables equal after XML whitespace normalisation.",
+    "Corpus fonts only (generated fonts reach TTX through C02's generators in a later round); the whitespace-normalised comparison uses the library's own dump and is consulted only when bytes differ.",
+    "round-trip metamorphic testing over corpus x generated option tuples", "DESIGN.md section 2 C03")
